@@ -62,11 +62,36 @@ def one_run(prop, seed, tier, index, keep_case=False):
     case = prop.gen_case(rnd, tier, index)
     case['seed'] = seed
     case['property'] = prop.ID
-    res = prop.run_case(case)
+    res = run_case_guarded(prop, case)
     res['seed'] = seed
     if res.get('violation') or keep_case:
         res['case'] = case
     return res
+
+
+def run_case_guarded(prop, case):
+    """prop.run_case, but an exception that escapes from *pycel* while the harness sets a run
+    up (building a workbook, pre-evaluating, saving) is a verdict about pycel, not a harness
+    failure: every such call succeeds on the unchanged tree"""
+    try:
+        return prop.run_case(case)
+    except Exception as exc:   # noqa
+        import pycel
+        pycel_dir = os.path.dirname(os.path.abspath(pycel.__file__))
+        frames = traceback.extract_tb(exc.__traceback__)
+        inner = frames[-1].filename if frames else ''
+        from_pycel = any(os.path.abspath(f.filename).startswith(pycel_dir) for f in frames)
+        from_harness = os.path.abspath(inner).startswith(os.path.join(VERIF, 'sim'))
+        if not from_pycel or from_harness:
+            raise
+        where = next((f'{os.path.basename(f.filename)}:{f.name}' for f in reversed(frames)
+                      if os.path.abspath(f.filename).startswith(os.path.join(VERIF, 'sim'))), '?')
+        v = {'rule': 'exception-outside-an-operation', 'step': -1, 'op': {'op': 'setup', 'at': where},
+             'expected': 'the call succeeds (it does on the unchanged tree)',
+             'got': f'{type(exc).__name__}: {str(exc)[-300:]}', 'exc': type(exc).__name__,
+             'tag': f'exception-outside-an-operation/{type(exc).__name__}/{where}'}
+        return {'violation': v, 'digest': 'exc:' + type(exc).__name__, 'sig': 'exc',
+                'nontrivial': False, 'counts': {}, 'sample': None}
 
 
 def _chunk_worker(prop_id, tier, items):
@@ -148,7 +173,7 @@ def generic_shrink(prop, case, tag, max_tests=400):
             c = legalise(json.loads(json.dumps(c)))
             if c is None:
                 return None
-            r = prop.run_case(c)
+            r = run_case_guarded(prop, c)
         except Exception:   # a candidate the harness cannot run is not a witness
             return None
         v = r.get('violation')
@@ -227,7 +252,7 @@ def write_replay(prop_id, case, violation, n):
 def replay_file(prop, path, quiet=False):
     with open(path) as f:
         rec = json.load(f)
-    res = prop.run_case(rec['case'])
+    res = run_case_guarded(prop, rec['case'])
     v = res.get('violation')
     if not quiet:
         print(json.dumps({'digest': res.get('digest'), 'violation': v},
@@ -309,7 +334,7 @@ def check(prop_id, tier):
             continue
         r = rs[0]
         small = shrink_case(prop, r['case'], tag, bud.get('shrink_tests', 300))
-        res2 = prop.run_case(small)
+        res2 = run_case_guarded(prop, small)
         v2 = res2.get('violation') or r['violation']
         path = write_replay(prop_id, small, v2, len(reported))
         t = replay_in_fresh_interpreter(prop_id, path)
